@@ -36,6 +36,9 @@ type msiResponse struct {
 	readFromL1 bool
 	// writeToL1 means the line is already fetched, the core can write to L1
 	writeToL1 bool
+	// exclusive means the lock taken for a read is the write lock (the core
+	// holds the line modified)
+	exclusive bool
 }
 
 type msi struct {
@@ -125,7 +128,7 @@ func (m *msi) rLock(id int, addrs []int32) (msiResponse, func(), *comp.Sem) {
 		if !m.getSem(addrs).Lock() {
 			return msiResponse{wait: true}, noop, nil
 		}
-		return msiResponse{readFromL1: true}, func() {
+		return msiResponse{readFromL1: true, exclusive: true}, func() {
 			m.getSem(addrs).Unlock()
 		}, m.getSem(addrs)
 	case shared:
